@@ -134,6 +134,11 @@ impl SlidingLogState {
     }
 }
 
+/// Seconds as a `Duration`; a wait too long to represent (a bucket of `Duration::MAX`) saturates.
+fn saturating_secs(secs: f64) -> Duration {
+    Duration::try_from_secs_f64(secs).unwrap_or(Duration::MAX)
+}
+
 /// Sliding window counter rate limiter state.
 ///
 /// Uses weighted averaging between current and previous buckets.
@@ -228,7 +233,7 @@ impl SlidingCounterState {
         if previous == 0.0 {
             // No previous bucket contribution, need to wait for bucket rotation
             let remaining = self.bucket_duration.as_secs_f64() * (1.0 - current_ratio);
-            return Duration::from_secs_f64(remaining);
+            return saturating_secs(remaining);
         }
 
         // weighted = previous * (1 - ratio) + current = limit - epsilon
@@ -243,10 +248,10 @@ impl SlidingCounterState {
         } else if target_ratio >= 1.0 {
             // Need to wait for bucket rotation
             let remaining = self.bucket_duration.as_secs_f64() * (1.0 - current_ratio);
-            Duration::from_secs_f64(remaining)
+            saturating_secs(remaining)
         } else {
             let wait_ratio = target_ratio - current_ratio;
-            Duration::from_secs_f64(wait_ratio * self.bucket_duration.as_secs_f64())
+            saturating_secs(wait_ratio * self.bucket_duration.as_secs_f64())
         }
     }
 
